@@ -24,31 +24,48 @@ enum Obj {
     TC(t::HeaderCrypto), TH(t::EncrypterHalf, t::DecrypterHalf),
     CC(w::ClientCrypto), CH(w::ClientEncrypterHalf, w::ClientDecrypterHalf),
     SC(w::ServerCrypto), SH(w::ServerEncrypterHalf, w::ServerDecrypterHalf),
+    /// the Wrath client object with its receiving side driven at header level (machine 4)
+    HC(w::ClientCrypto), HH(w::ClientEncrypterHalf, w::ClientDecrypterHalf),
 }
-/// machine: 0 vanilla, 1 tbc, 2 wrath client object, 3 wrath server object
+fn hdr_bytes(h: w::ServerHeader) -> Vec<u8> { let mut o = h.size.to_le_bytes().to_vec(); o.extend((h.opcode as u32).to_le_bytes()); o }
+fn attempt_bytes(a: w::WrathServerAttempt) -> Vec<u8> { match a { w::WrathServerAttempt::Header(h) => hdr_bytes(h), w::WrathServerAttempt::AdditionalByteRequired => Vec::new() } }
+/// machine: 0 vanilla, 1 tbc, 2 wrath client object, 3 wrath server object, 4 wrath client object at header level
 fn fresh(machine: u8, key: [u8; 40]) -> Obj {
-    match machine { 0 => Obj::VC(v_crypto(key)), 1 => Obj::TC(t_crypto(key)), 2 => Obj::CC(w_client(key)), _ => Obj::SC(w_server(key)) }
+    match machine { 0 => Obj::VC(v_crypto(key)), 1 => Obj::TC(t_crypto(key)), 2 => Obj::CC(w_client(key)), 3 => Obj::SC(w_server(key)), _ => Obj::HC(w_client(key)) }
 }
-fn sel_of(machine: u8) -> [u8; 2] { match machine { 0 => [0, 0], 1 => [1, 0], 2 => [2, 0], _ => [2, 1] } }
+fn sel_of(machine: u8) -> [u8; 2] { match machine { 0 => [0, 0], 1 => [1, 0], 2 => [2, 0], 3 => [2, 1], _ => [2, 2] } }
 
 impl Obj {
     fn enc(&mut self, d: &mut [u8]) {
         match self { Obj::VC(c) => c.encrypt(d), Obj::VH(e, _) => e.encrypt(d), Obj::TC(c) => c.encrypt(d), Obj::TH(e, _) => e.encrypt(d),
-                     Obj::CC(c) => c.encrypt(d), Obj::CH(e, _) => e.encrypt(d), Obj::SC(c) => c.encrypt(d), Obj::SH(e, _) => e.encrypt(d) }
+                     Obj::CC(c) => c.encrypt(d), Obj::CH(e, _) => e.encrypt(d), Obj::SC(c) => c.encrypt(d), Obj::SH(e, _) => e.encrypt(d),
+                     Obj::HC(c) => c.encrypt(d), Obj::HH(e, _) => e.encrypt(d) }
+    }
+    /// one receive call; at header level 4 bytes are an attempt and 1 byte completes a long header
+    fn dec_out(&mut self, b: &[u8]) -> Vec<u8> {
+        match (&mut *self, b.len()) {
+            (Obj::HC(c), 4) => attempt_bytes(c.attempt_decrypt_server_header([b[0], b[1], b[2], b[3]])),
+            (Obj::HH(_, x), 4) => attempt_bytes(x.attempt_decrypt_server_header([b[0], b[1], b[2], b[3]])),
+            (Obj::HC(c), 1) => hdr_bytes(c.decrypt_large_server_header(b[0])),
+            (Obj::HH(_, x), 1) => hdr_bytes(x.decrypt_large_server_header(b[0])),
+            _ => { let mut v = b.to_vec(); self.dec(&mut v); v }
+        }
     }
     fn dec(&mut self, d: &mut [u8]) {
         match self { Obj::VC(c) => c.decrypt(d), Obj::VH(_, x) => x.decrypt(d), Obj::TC(c) => c.decrypt(d), Obj::TH(_, x) => x.decrypt(d),
-                     Obj::CC(c) => c.decrypt(d), Obj::CH(_, x) => x.decrypt(d), Obj::SC(c) => c.decrypt(d), Obj::SH(_, x) => x.decrypt(d) }
+                     Obj::CC(c) => c.decrypt(d), Obj::CH(_, x) => x.decrypt(d), Obj::SC(c) => c.decrypt(d), Obj::SH(_, x) => x.decrypt(d),
+                     Obj::HC(c) => c.decrypt(d), Obj::HH(_, x) => x.decrypt(d) }
     }
     fn split(self) -> Obj {
         match self { Obj::VC(c) => { let (e, d) = c.split(); Obj::VH(e, d) } Obj::TC(c) => { let (e, d) = c.split(); Obj::TH(e, d) }
-                     Obj::CC(c) => { let (e, d) = c.split(); Obj::CH(e, d) } Obj::SC(c) => { let (e, d) = c.split(); Obj::SH(e, d) } o => o }
+                     Obj::CC(c) => { let (e, d) = c.split(); Obj::CH(e, d) } Obj::SC(c) => { let (e, d) = c.split(); Obj::SH(e, d) }
+                     Obj::HC(c) => { let (e, d) = c.split(); Obj::HH(e, d) } o => o }
     }
     /// Err = unsplit refused (both halves are consumed by the call)
     fn unsplit(self) -> Result<Obj, ()> {
         match self { Obj::VH(e, d) => e.unsplit(d).map(Obj::VC).map_err(|_| ()), o => Ok(o) }
     }
-    fn is_combined(&self) -> bool { matches!(self, Obj::VC(_) | Obj::TC(_) | Obj::CC(_) | Obj::SC(_)) }
+    fn is_combined(&self) -> bool { matches!(self, Obj::VC(_) | Obj::TC(_) | Obj::CC(_) | Obj::SC(_) | Obj::HC(_)) }
     /// encrypter half then decrypter half
     fn obs(&self) -> Vec<u8> {
         match self.clone().split() {
@@ -56,6 +73,8 @@ impl Obj {
             Obj::TH(e, d) => { let a = hk::tbc_encrypter_state(&e); let b = hk::tbc_decrypter_state(&d); let mut o = a.0.to_vec(); o.push(a.1); o.push(a.2); o.extend(b.0); o.push(b.1); o.push(b.2); o }
             Obj::CH(mut e, mut d) => { let mut a = [0u8; 8]; e.encrypt(&mut a); let mut b = [0u8; 8]; d.decrypt(&mut b); let mut o = a.to_vec(); o.extend(b); o }
             Obj::SH(mut e, mut d) => { let mut a = [0u8; 8]; e.encrypt(&mut a); let mut b = [0u8; 8]; d.decrypt(&mut b); let mut o = a.to_vec(); o.extend(b); o }
+            // header level: first what decrypt_large_server_header(0) would complete from the stash
+            Obj::HH(mut e, mut d) => { let mut o = hdr_bytes(d.clone().decrypt_large_server_header(0)); let mut a = [0u8; 8]; e.encrypt(&mut a); let mut b = [0u8; 8]; d.decrypt(&mut b); o.extend(a); o.extend(b); o }
             _ => unreachable!(),
         }
     }
@@ -69,7 +88,7 @@ fn run_ops(mut obj: Obj, ops: &[Op]) -> Result<RunOut, ()> {
     for x in ops {
         match x {
             Op::Enc(b) => { let mut b = b.clone(); obj.enc(&mut b); eo.extend(b); }
-            Op::Dec(b) => { let mut b = b.clone(); obj.dec(&mut b); dox.extend(b); }
+            Op::Dec(b) => { let o = obj.dec_out(b); dox.extend(o); }
             Op::Split => obj = obj.split(),
             Op::Unsplit => obj = obj.unsplit()?,
             Op::Clone => { let work = obj.clone(); let snapshot = obj.clone(); originals.push((obj, snapshot)); obj = work; }
@@ -77,6 +96,34 @@ fn run_ops(mut obj: Obj, ops: &[Op]) -> Result<RunOut, ()> {
     }
     let originals_ok = originals.iter().all(|(o, s)| o == s && o.obs() == s.obs());
     Ok(RunOut { obj, enc: eo, dec: dox, originals_ok })
+}
+
+/// header-level histories for the Wrath client object: the receive calls are cut out of what a
+/// server with the same session key emits (short and long headers, some raw chunks), so that long
+/// headers really occur; between the attempt and the fifth byte come sends, splits and clones
+fn header_ops(rng: &mut Rng, key: [u8; 40], n: usize) -> Vec<Op> {
+    let mut srv = w_server(key);
+    let mut ops = Vec::new();
+    let filler = |rng: &mut Rng, ops: &mut Vec<Op>| {
+        for _ in 0..rng.below(4) {
+            match rng.below(4) { 0 => { let l = rng.range(0, 12) as usize; ops.push(Op::Enc(rng.bytes(l))) } 1 => ops.push(Op::Split), _ => ops.push(Op::Clone) }
+        }
+    };
+    while ops.len() < n {
+        match rng.below(10) {
+            0 => { let l = *rng.pick(&[0usize, 2, 3, 5, 6, 9, 40]); let mut b = rng.bytes(l); srv.encrypt(&mut b); ops.push(Op::Dec(b)); }
+            1 | 2 | 3 => { let size = *rng.pick(&[0u32, 4, 0x7FFE, 0x7FFF]); let h = srv.encrypt_server_header(size, rng.next() as u16).to_vec(); ops.push(Op::Dec(h)); }
+            _ => {
+                let size = *rng.pick(&[0x8000u32, 0x8001, 0xFFFF, 0x10000, 0x012345, 0x7FFFFF]);
+                let h = srv.encrypt_server_header(size, rng.next() as u16).to_vec();
+                ops.push(Op::Dec(h[..4].to_vec()));
+                filler(rng, &mut ops);
+                ops.push(Op::Dec(h[4..].to_vec()));
+            }
+        }
+        filler(rng, &mut ops);
+    }
+    ops
 }
 
 fn random_ops(rng: &mut Rng, machine: u8, n: usize) -> Vec<Op> {
@@ -97,11 +144,11 @@ fn random_ops(rng: &mut Rng, machine: u8, n: usize) -> Vec<Op> {
 fn histories(ctx: &mut Ctx) {
     let mut rng = ctx.rng("histories");
     let (nseq, maxops) = if ctx.quick() { (40usize, 60usize) } else { (60, 600) };
-    for machine in 0u8..4 {
+    for machine in 0u8..5 {
         for j in 0..nseq {
             let key: [u8; 40] = match j % 9 { 0 => [0u8; 40], 1 => [0xFF; 40], _ => rng.arr() };
             let n = if j < 3 { [0usize, 1, 5][j] } else if j % 2 == 0 { maxops } else { rng.range(2, maxops as u64) as usize };
-            let ops = random_ops(&mut rng, machine, n);
+            let ops = if machine == 4 { header_ops(&mut rng, key, n) } else { random_ops(&mut rng, machine, n) };
             let ops_b = enc_ops(&ops);
             let det = |what: &str| format!("{{\"what\":\"{}\",\"machine\":{},\"key\":\"{}\",\"ops\":\"{}\"}}", what, machine, hex(&key), hex(&ops_b));
             ctx.oracle_runs += 1;
@@ -133,7 +180,9 @@ fn histories(ctx: &mut Ctx) {
                     if a.enc != out.enc { ctx.fail("direction_enc", det("encrypt outputs differ from a separate object that only encrypts")); }
                     if b.dec != out.dec { ctx.fail("direction_dec", det("decrypt outputs differ from a separate object that only decrypts")); }
                     let (oa, ob) = (a.obj.obs(), b.obj.obs());
-                    if obs[..obs.len() / 2] != oa[..oa.len() / 2] || obs[obs.len() / 2..] != ob[ob.len() / 2..] { ctx.fail("direction_state", det("final per-direction state differs from the single-direction objects")); }
+                    // (encrypter part, decrypter part) of an observation; at header level the stash comes first
+                    let parts = |o: &[u8]| -> (Vec<u8>, Vec<u8>) { if machine == 4 { (o[8..16].to_vec(), [&o[..8], &o[16..]].concat()) } else { (o[..o.len() / 2].to_vec(), o[o.len() / 2..].to_vec()) } };
+                    if parts(&obs).0 != parts(&oa).0 || parts(&obs).1 != parts(&ob).1 { ctx.fail("direction_state", det("final per-direction state differs from the single-direction objects")); }
                 }
                 _ => ctx.fail("panic", det("single-direction reference run panicked")),
             }
